@@ -4,6 +4,7 @@ CONSTANTS
   SyncNotify = FALSE
   UnregUnderRead = TRUE
   HbLeak = FALSE
+  ResendHoldsSession = FALSE
   RetentionHoldsRead = FALSE
 INVARIANTS LocksConsistent
 PROPERTIES WriteReturns AllReturn
